@@ -96,7 +96,9 @@ def c10(tier):
              filt=lambda p: p["mfault"]["at"] == 0),
         dict(mc=(W, wcfg("conform", q)), max_progs=500 if q else 10000,
              filt=lambda p: any(o["op"] in ("SD", "WC") for o in p["ops"])),
-    ], assumptions=BASE_ASSUME, level="model_checking")
+    ], assumptions=BASE_ASSUME + CONC_ASSUME, level="model_checking",
+        # fail-stop also holds against writers that were already queued for the connection when the fault happened
+        extra=lambda: conc.run_conc_check("C10", tier, 400 if q else 10000, 60 if q else 1000, fault_only=True))
 
 
 def c11(tier):
